@@ -1,0 +1,47 @@
+//go:build verif
+
+package watermark
+
+// Contracts for the govc verifier (/verif/DESIGN.md, C13). Comment-only.
+//
+// Client-side view of a WaterMark, in ghost state indexed by the *WaterMark reference:
+//   WmLow[w]      a value DoneUntil has been observed to have reached (DoneUntil never decreases)
+//   WmOpen[w][t]  number of Begin(t) calls not yet matched by a Done(t) call (call order)
+//   WmMax[w]      the largest index passed to Begin/Done so far
+// The method contracts below are what the consumer loop `process` guarantees to its clients; they
+// are trusted at call sites (the calls are channel sends to another goroutine) and justified by
+// the loop invariant proved for `process` (C13).
+//
+//@ smt (declare-const ctx_background Iface)
+//@ ghost WmLow (Array Int Int)
+//@ ghost WmOpen (Array Int (Array Int Int))
+//@ ghost WmMax (Array Int Int)
+//
+//@ func (*watermark.WaterMark).Begin
+//@ trusted message to the consumer goroutine; effect stated on the ghost call-order state (C13)
+//@ requires ts >= WmMax[ref(w)]
+//@ assigns WmOpen, WmMax
+//@ ensures WmOpen == store(old(WmOpen), ref(w), store(old(WmOpen)[ref(w)], ts, old(WmOpen)[ref(w)][ts] + 1))
+//@ ensures WmMax == store(old(WmMax), ref(w), ts)
+//
+//@ func (*watermark.WaterMark).Done
+//@ trusted message to the consumer goroutine; effect stated on the ghost call-order state (C13)
+//@ requires WmOpen[ref(w)][ts] > 0
+//@ assigns WmOpen, WmMax
+//@ ensures WmOpen == store(old(WmOpen), ref(w), store(old(WmOpen)[ref(w)], ts, old(WmOpen)[ref(w)][ts] - 1))
+//@ ensures WmMax == store(old(WmMax), ref(w), ite(ts > old(WmMax)[ref(w)], ts, old(WmMax)[ref(w)]))
+//
+//@ func (*watermark.WaterMark).DoneUntil -> r
+//@ trusted atomic load; monotone and never beyond an open index (C13 safety clause, proved on process)
+//@ assigns WmLow
+//@ ensures r >= old(WmLow)[ref(w)] && r <= WmMax[ref(w)]
+//@ ensures WmLow == store(old(WmLow), ref(w), r)
+//@ ensures forall(Int(t), WmOpen[ref(w)][t] > 0 ==> r <= t, trig(WmOpen[ref(w)][t]))
+//
+//@ func (*watermark.WaterMark).WaitForMark -> err
+//@ trusted blocks until the consumer publishes doneUntil >= ts or the context ends (C13 waiter clause)
+//@ assigns WmLow
+//@ ensures err == nil ==> WmLow[ref(w)] >= ts
+//@ ensures ctx == ctx_background ==> err == nil
+//@ ensures WmLow[ref(w)] >= old(WmLow)[ref(w)]
+//@ ensures forall(Int(x), x != ref(w) ==> WmLow[x] == old(WmLow)[x], trig(WmLow[x]))
